@@ -127,6 +127,9 @@ pub fn install_panic_hook() {
         if EXPECT_PANIC.load(std::sync::atomic::Ordering::Relaxed) {
             return;
         }
+        if std::env::var("VERIF_BT").is_ok() {
+            eprintln!("PANIC at {}: {}\n{}", loc, msg, std::backtrace::Backtrace::force_capture());
+        }
         engine::fail("violation", &format!("unexpected panic at {}: {}", loc, msg));
     }));
 }
